@@ -82,6 +82,7 @@ THEOREMS = [
     "Cotengra.C10.path_roundtrip",
     "Cotengra.C10.path_roundtrip_traversals",
     "Cotengra.C10.edge_path_valid",
+    "Cotengra.C10.from_edge_path_eq",
 ]
 
 
@@ -257,7 +258,7 @@ def gen_edge_case(rng, tier):
             ep.insert(rng.randrange(len(ep) + 1), rng.choice(ep))
         else:
             ep.insert(rng.randrange(len(ep) + 1), 99)
-    return {"kind": "edge", "inputs": net.inputs, "edge_path": ep}
+    return {"kind": "edge", "inputs": net.inputs, "edge_path": ep, "output": list(net.output)}
 
 
 # --------------------------------------------------------------------------------------------
@@ -412,7 +413,57 @@ def run_edge_case(case):
         return ("edge_path_to_ssa-vs-definition", [ssa, want]), obs
     if lin == "KeyError" or not valid_linear(lin, n) or merges_linear(lin, n) != merges_ssa(ssa, n):
         return ("edge_path_to_linear-other-merges", [lin, ssa]), obs
+    if "output" in case and n >= 1:
+        bad = from_edge_oracle(case, inputs, ep, want, obs)
+        if bad is not None:
+            return bad, obs
     return None, obs
+
+
+def from_edge_oracle(case, inputs, ep, want, obs):
+    """`ContractionTree.from_path(inputs, output, size_dict, edge_path=ep)` -- "into trees": the tree contracts, for
+    each index in turn, exactly the tensors that carry it at that moment (`want`, the leaf-set simulation), whatever
+    the output is: every merge of `want` is a node of the tree, every other node lies inside a merge of three or
+    more tensors (where an optimizer chooses the binary sub-tree), and the nodes left without a parent are the
+    tensors left by the simulation."""
+    output = tuple(gen.sym(i) for i in case["output"])
+    sizes = {ix: 2 for t in inputs for ix in t}
+    with warnings.catch_warnings():
+        warnings.simplefilter("ignore")
+        tree = ctg.ContractionTree.from_path(inputs, output, sizes, edge_path=ep, autocomplete=False,
+                                             optimize="greedy")
+    nodes = {frozenset(map(int, x)) for x in tree.children}
+    merges = [[frozenset(c) for c in step] for step in want]
+    unions = [frozenset().union(*step) for step in merges]
+    obs["edge_tree_nodes"] = sorted(sorted(x) for x in nodes)
+    obs["edge_all_binary"] = all(len(step) == 2 for step in merges)
+    missing = [sorted(u) for u in unions if u not in nodes]
+    if missing:
+        return ("from_path(edge_path)-step-missing", {"missing_nodes": missing, "tree_nodes": obs["edge_tree_nodes"]})
+    for x in nodes:
+        if x in unions:
+            continue
+        # an intermediate of a k-ary step: a union of >= 2 (not all) of that step's carriers
+        ok = False
+        for step, u in zip(merges, unions):
+            if len(step) >= 3 and x < u:
+                parts = [c for c in step if c <= x]
+                if len(parts) >= 2 and frozenset().union(*parts) == x:
+                    ok = True
+                    break
+        if not ok:
+            return ("from_path(edge_path)-extra-node", sorted(x))
+    # what is left without a parent
+    cur = [frozenset([i]) for i in range(len(inputs))]
+    for step, u in zip(merges, unions):
+        cur = [c for c in cur if c not in step] + [u]
+    childs = {frozenset(map(int, c)) for lr in tree.children.values() for c in lr}
+    every = nodes | {frozenset([i]) for i in range(len(inputs))}
+    left = {x for x in every if x not in childs}
+    if len(inputs) >= 2 and left != set(cur):
+        return ("from_path(edge_path)-parentless-nodes", [sorted(sorted(x) for x in left),
+                                                          sorted(sorted(x) for x in cur)])
+    return None
 
 
 RUNNERS = {"tree": run_tree_case, "linear": run_path_case, "ssa": run_path_case, "edge": run_edge_case}
@@ -479,6 +530,17 @@ def correspond(ctx, drv, case, obs):
         else:
             ctx.count("edge:ids-identical-to-model" if norm(a["path"]) == norm(obs["ssa"])
                       else "edge:ids-differ-from-model")
+            if "edge_tree_nodes" in obs:
+                # from_path(edge_path=...) of the model (binary steps only: a k-ary step is completed by an
+                # optimizer, outside the model) versus the nodes of the real tree
+                f = drv.call("c10.from_edge", edge_path=case["edge_path"], inputs=case["inputs"])
+                if obs["edge_all_binary"]:
+                    if not f.get("ok") or sorted(sorted(x) for x in f["parents"]) != obs["edge_tree_nodes"]:
+                        bad.append("from_path(edge_path) parents")
+                    else:
+                        ctx.count("edge:from_path-tree-compared")
+                else:
+                    ctx.count("edge:from_path-k-ary(oracle only)")
     ctx.traces += 1
     if bad:
         ctx.corr_broken("model and implementation disagree on: " + "; ".join(bad), case)
